@@ -23,7 +23,13 @@ fn inert_item(item: &str) -> Result<bool, String> {
             // more than one collected character (marker + intermediate, several intermediates)
             // is unimplemented under every reading as long as the last collected character
             // and the final do not spell an implemented function (DECSTR `! p`, `# 8`, `( x`)
-            if !(r.only_multi_collect && o.func.is_none()) {
+            // Likewise a parameter list the reference calls out of domain (more than 6
+            // sub-parameters, more than 32 parameters, values above 65535, `:` outside SGR)
+            // only makes the *arguments* of a function unspecified: when the final byte,
+            // marker and intermediate spell no function at all, the sequence is inert
+            // whatever its parameters look like.
+            let inert_anyway = o.func.is_none() && matches!(o.act, Act::CsiDispatch | Act::EscDispatch);
+            if !((r.only_multi_collect && o.func.is_none()) || inert_anyway) {
                 return Err(format!("item {:?} contains a sequence outside the specified domain", item));
             }
         }
@@ -264,6 +270,17 @@ fn enum_items() -> Vec<String> {
     }
     for s in ["\u{9b}?1049 h", "\u{9b}?6$h", "\u{9b}?25'l", "\x1b[?7#l", "\x1b[?1 h", "\x1b[? 1049h", "\x1b[?1049  h", "\x1b[?1049 $h", "\x1b[>1 !q", "\x1b[?47\"h"] {
         v.push(s.into());
+    }
+    // unimplemented finals / markers / intermediates behind parameter lists of every odd
+    // shape: many sub-parameters (empty and not), many parameters, huge values
+    for params in ["1:2:3:4:5:6:7", "1::::::", ":::::::::", "1:2:3:4:5:6:7:8:9:10;1:2:3:4:5:6:7", "99999999999", "1;2;3;4;5;6;7;8;9;10;11;12;13;14;15;16;17;18;19;20;21;22;23;24;25;26;27;28;29;30;31;32;33;34", ";;;;;;;;;;;;;;;;;;;;;;;;;;;;;;;;;;;;;;;;"] {
+        for tail in ["x", "y", " q", "$p", "!q", "~"] {
+            v.push(format!("\x1b[{params}{tail}"));
+            v.push(format!("\x1b[>{params}{tail}"));
+            v.push(format!("\u{9b}?{params}{tail}"));
+            // ... followed by another inert item: nothing may be left behind for it
+            v.push(format!("\x1b[{params}{tail}\x1b]0;t\x07\x1b[5y"));
+        }
     }
     // selectors without a function on implemented finals
     for s in ["\x1b[4J", "\x1b[3K", "\x1b[1g", "\x1b[2g", "\x1b[1W", "\x1b[3W", "\x1b[4W", "\x1b[9t", "\x1b[7;1;1t"] {
